@@ -436,7 +436,7 @@ def law3_equal_objects_hash_and_index_alike(self, other, result) -> bool:
             if 'raises' in wit:
                 key = 'C15/raises:%s:%s' % (label, wit['raises'])
             else:
-                key = 'C15/eq-%s:%s' % (kind, label)
+                key = 'C15/eq-%s:%s' % (kind, label) + (':' + type(self).__name__ if label.startswith('nlri:') and nlri_sublabel(self) else '')
             M.pending = LawViolation(key, what, wit, label, 'L3')
         return ok
     finally:
